@@ -47,12 +47,21 @@ def observe_model(m, case, ca, np, CASADI_ATTRIBUTES):
             return ca.MX(val)
         return ca.MX(float(val))
 
+    # the Variable-level attributes may mention constants: evaluate them at the constants' declared values
+    # (resolved to a fixed point, a constant may be defined through another one)
+    cvar = ca.veccat(*[c.symbol for c in m.constants])
+    cval = ca.DM.zeros(cvar.shape[0], 1)
+    if cvar.shape[0]:
+        g = ca.Function("c", [cvar], [ca.veccat(*[to_mx(c.value) for c in m.constants])])
+        for _ in range(len(m.constants) + 1):
+            cval = g(cval)
+
     def ev(val, numel):
         mx = to_mx(val)
-        f = ca.Function("a", [in_var], [mx])
+        f = ca.Function("a", [in_var, cvar], [mx])
         out = []
         for pv in pvs:
-            r = np.array(f(pv)).flatten(order="F").tolist()
+            r = np.array(f(pv, cval)).flatten(order="F").tolist()
             if len(r) == 1 and numel != 1:
                 r = r * numel
             out.append([num(x) for x in r])
@@ -87,7 +96,10 @@ def observe_model(m, case, ca, np, CASADI_ATTRIBUTES):
                         "ptype": v.python_type.__name__, "attrs": attrs})
         cats[cat] = lst
 
-    f = m.variable_metadata_function
+    try:
+        f = m.variable_metadata_function
+    except Exception as e:  # noqa - reported with the site, the parent classifies it
+        raise RuntimeError("variable_metadata_function: " + str(e))
     rebuilt = None
     try:
         if f.class_name() == "MXFunction":
@@ -148,7 +160,8 @@ def handler(case):
             stages.append(observe())
         return {"stages": stages}
     except Exception as e:  # noqa - the failure stage and class are an outcome
-        return {"exc": type(e).__name__, "msg": str(e)[:300], "stage": stage}
+        msg = str(e)
+        return {"exc": type(e).__name__, "msg": msg if len(msg) <= 500 else msg[:250] + " ... " + msg[-250:], "stage": stage}
 
 
 if __name__ == "__main__":
